@@ -211,7 +211,7 @@ COEF_POWER_FORMS = ["%s * %s^%s" % (c, u, e) for c in ("2", "0.5", "12") for u i
                     for e in ("x", "2", "(y + 1)", "-1")] + ["2 * 3!", "2 * 3! * x", "4 * sgn(x)", "x * 3!^2", "2 * -3!^2", "2 * (3!^x)^2", "7 * 2^3!", "3!^x * 2", "2sgn(x)^2", "2(3!)^x"]
 LONG_LITERALS = ["9" * 4301 + "x + 1", "2 * " + "7" * 4400, "4x^" + "1" * 4305, "x + " + "12" * 600, "8" * 1000 + " - 1"]
 # exactly at the limit (read correctly by the pinned code); the reference grammar needs ~90 s per such text, so thorough tier only
-LONG_LITERALS_AT_LIMIT = ["1" + "0" * 4299, "x + " + "12" * 2150, LIFTED + "9" * 4301 + "x + 1", LIFTED + "2 * " + "7" * 4400]
+LONG_LITERALS_AT_LIMIT = ["1" + "0" * 4299, "x + " + "12" * 2150]
 
 
 def chains(ctx):
